@@ -6,7 +6,10 @@ prove:       lean/Midgard/Props/C19.lean about lean/Midgard/Model/Config.lean
 correspond:  histories of update / update_from_dict / _options / _config_section / _file / profiles /
              master_section / fallback / update_vars on two real Configuration objects versus the
              compiled model; after the steps a battery of get / [] / exists / sources / view / as_str /
-             write_to_file+read_from_file observations; typed accessors and entry.replace on grammar values
+             write_to_file+read_from_file observations; typed accessors and entry.replace on grammar values;
+             configurations aimed at the text form (theorem text_roundtrip: op `w` = asStr against as_str character
+             for character, op `r` = Cfg.updateFromText against ConfigParser+update_from_file on the written file
+             incl. the per-profile store, op `t` = the theorem's hypothesis WfText against the oracle's wf_text)
 oracle:      a reference store {profile: {section: {key: value}}} kept by the harness states the
              property directly: override → first listed profile → profile-less → fallback → default →
              MissingSection/MissingEntry error; master when no section; accessors vs re.split / the eight
@@ -66,7 +69,9 @@ def o(x):
 # value grammar
 
 WORDS = ["alpha", "beta_2", "gnss", "vlbi", "Kartverket", "x"]
-VARS = {"var_1": "one", "var_2": "two", "year": "2019", "nest": "<{var_1}>", "pad": "ab"}
+VARS = {"var_1": "one", "var_2": "two", "year": "2019", "nest": "<{var_1}>", "pad": "ab",
+        # known variables whose value is falsy: substituted like any other known variable
+        "empty": "", "zero": 0, "off": False, "nest0": "[{empty}{zero}]"}
 
 
 def gen_value(rng, long_ok=True):
@@ -84,7 +89,9 @@ def gen_value(rng, long_ok=True):
     if k < 0.67:
         return rng.choice(["/data/{year}/file_{var_1}.txt", "~/midgard/{unknown}/x", "/a/b/c.conf", "{var_1}", "pre{var_2}post",
                            "{unknown}", "{var_1:>8}|", "{pad:<5}|{pad:^6}|", "{unknown:>9}", "{nest} and {nest}", "{{var_1}}",
-                           "{var_1", "x{}y", "{9}", "a{unknown:03d}b", "{var_1:*^9}", "{year:7}"])
+                           "{var_1", "x{}y", "{9}", "a{unknown:03d}b", "{var_1:*^9}", "{year:7}",
+                           "run{empty}.log", "{empty}", "obs_{zero}_{unknown}.dat", "{off}/{empty}/{var_1}", "{nest0}|{empty:>3}|",
+                           "{empty}{unknown}{zero}"])
     if k < 0.75 and long_ok:
         n = rng.randint(20, 60)
         return rng.choice([", ", " "]).join(rng.choice(WORDS) + str(i) for i in range(n))
@@ -96,11 +103,43 @@ def gen_value(rng, long_ok=True):
     return "v%d" % rng.randint(0, 99)
 
 
-def wf_value(v):
-    """values the text form is required to preserve: words separated by single blanks"""
-    if v != v.strip() or "\n" in v or "\t" in v or "%" in v or "  " in v:
-        return False
-    return not any(w[:1] in "#;" for w in v.split(" "))
+def is_blank(c):
+    return 9 <= ord(c) <= 13 or 28 <= ord(c) <= 32
+
+
+def word_ok(x):
+    return x != "" and all(not is_blank(c) and c != "%" for c in x) and x[0] not in "#;"
+
+
+def wf_text_value(v):
+    ws = v.split()
+    return " ".join(ws) == v and all(word_ok(x) for x in ws) and v.isascii()
+
+
+def key_ok(k):
+    return k != "" and all(not is_blank(c) and c != "=" for c in k) and k.lower() == k and k[0] not in "[#;" and k.isascii()
+
+
+def fits(width, k, key_width=30):
+    return max(key_width, len(k)) + 2 <= width
+
+
+def wf_text(view, width):
+    """the configurations whose text form (as_str at `width`, key column 30) must read back: the same predicate as
+    `WfText true width 30` of the theorem text_roundtrip (lean/Midgard/Proofs/ConfigDoc.lean); the two are compared
+    on every generated configuration (op `t`).  view: section -> key -> (value, source, meta)"""
+    for n, d in view.items():
+        if any(is_blank(c) for c in n) or n.partition("__")[0] == "" or n == "DEFAULT" or not d or not n.isascii():
+            return False
+        for k, e in d.items():
+            if not (key_ok(k) and ":" not in k and fits(width, k) and wf_text_value(e[0])):
+                return False
+            for mk, mv in (e[2] or {}).items():
+                if not key_ok(f"{k}:{mk}"):
+                    return False
+                if mv is not None and not (fits(width, f"{k}:{mk}") and wf_text_value(str(mv))):
+                    return False
+    return True
 
 
 # ------------------------------------------------------------------------------------------------
@@ -174,10 +213,19 @@ def show_section(name, sec, with_source):
     return f"{hexs(name)}[" + ",".join(show_entry(k, e, with_source) for k, e in sec.data.items()) + "]"
 
 
-def show_view(cfg, with_source):
-    if not cfg._sections:
+def show_sections(secs, with_source):
+    if not secs:
         return "{}"
-    return "/".join(show_section(n, s, with_source) for n, s in cfg._sections.items())
+    return "/".join(show_section(n, s, with_source) for n, s in secs.items())
+
+
+def show_view(cfg, with_source):
+    return show_sections(cfg._sections, with_source)
+
+
+def show_store(cfg):
+    """`_profile_sections`: profile (`~` = None) `>` its sections, in insertion order"""
+    return "|".join(("~" if p is None else hexs(p)) + ">" + show_sections(secs, False) for p, secs in cfg._profile_sections.items())
 
 
 def kvs(d, sep=","):
@@ -277,7 +325,11 @@ def run_op(w: World, op: dict):
             op["_written"] = path.read_text()
             back = Configuration.read_from_file("reread", path)
             op["_back"] = back
-            return tok, show_view(back, False)
+            return tok, show_view(back, False) + "|" + show_store(back)
+        if t == "t":
+            # the hypothesis of the theorem `text_roundtrip` (Lean: WfText) against the predicate the oracle uses
+            view = {n: {k: (e._value, None, e.meta) for k, e in sec.data.items()} for n, sec in cfg._sections.items()}
+            return f"t:{i}:{op['width']}", "1" if wf_text(view, op["width"]) else "0"
         if t == "a":
             tok = f"a:{op['kind']}:{hexs(op['value'])}"
             e = ConfigurationEntry("k", op["value"])
@@ -479,17 +531,34 @@ def oracle_query(w: World, op: dict, obs: str, rep, step):
             rep.violate("profiles:getter", f"cfg.profiles gave {obs}, expected {want}", step)
     elif t == "r":
         view = ref.view()
-        if all(wf_value(e[0]) and all(mv is None or (wf_value(str(mv)) and str(mv) != "") for mv in e[2].values())
-               for d in view.values() for e in d.values()) and all(
-                   k == k.lower() for d in view.values() for k in d):
-            want = {s: {k: (e[0], {mk: (None if mv is None else str(mv)) for mk, mv in e[2].items()}) for k, e in d.items()}
-                    for s, d in view.items() if d}
+        if wf_text(view, op["width"]):
+            rep.count("roundtrip:wf")
+            # the property: the written file reads back to the same sections, keys, values and metadata; a section
+            # written as `name__profile` is the section `name` of that profile (update_from_file's documented form)
+            want_store = {}
+            for s_, d in view.items():
+                base, has, prof = s_.partition("__")
+                want_store.setdefault(prof if has else None, {})[base] = {
+                    k: (e[0], {mk: (None if mv is None else str(mv)) for mk, mv in e[2].items()}) for k, e in d.items()}
+            want = want_store.get(None, {})
             if obs.startswith("err:"):
                 rep.violate("roundtrip:raises", f"reading the written file back raised {obs}", step)
                 return
-            got = {s: {k: (e[0], e[2]) for k, e in d.items()} for s, d in parse_view(obs, with_source=False).items()}
-            if got != want:
+            parts = obs.split("|")
+            got = {s_: {k: (e[0], e[2]) for k, e in d.items()} for s_, d in parse_view(parts[0], with_source=False).items()}
+            if got != want or list(got) != list(want) or any(list(got[s_]) != list(want[s_]) for s_ in want):
                 rep.violate("roundtrip:differs", f"written+read view {summ(got)} differs from the configuration {summ(want)}", step)
+                return
+            got_store = {}
+            for part in parts[1:]:
+                if not part:
+                    continue
+                pname, _, body = part.partition(">")
+                got_store[None if pname == "~" else common.unhex(pname)] = {
+                    s_: {k: (e[0], e[2]) for k, e in d.items()} for s_, d in parse_view(body, with_source=False).items()}
+            if got_store != want_store or any(list(got_store[p_]) != list(want_store[p_]) for p_ in want_store):
+                rep.violate("roundtrip:profiles-differ",
+                            f"written+read profile sections {summ(got_store)} differ from the configuration {summ(want_store)}", step)
         else:
             rep.count("roundtrip:not-wf-skipped")
     elif t == "a":
@@ -592,6 +661,25 @@ def oracle_replace(op, obs, rep, step):
     if obs.startswith("err:") and not any(m.group(2) for m in VAR_RE.finditer(v)):
         rep.violate("replace:raises", f"entry.replace on {v!r} with {allvars} raised {obs}", step)
         return
+    # "substitutes only known variables", stated for the flat case (no format specs, no braces other than those of the
+    # references, no braces in the values of the variables or in the default): every reference to a known variable is
+    # replaced by that variable's own value - whatever it is: "", 0, False - and a reference to an unknown variable
+    # by the default when there is one, and left as it is otherwise
+    dflt = op.get("default")
+    ms = list(VAR_RE.finditer(v))
+    flat = (all(m.group(2) is None for m in ms) and v.count("{") == len(ms) == v.count("}")
+            and all("{" not in str(x) and "}" not in str(x) for x in allvars.values())
+            and (dflt is None or ("{" not in dflt and "}" not in dflt)))
+    if flat:
+        rep.count("replace:flat-case")
+        if any(m.group(1) in allvars and not allvars[m.group(1)] for m in ms):
+            rep.count("replace:known-variable-with-falsy-value" + ("+default" if dflt is not None else ""))
+        want = VAR_RE.sub(lambda m: str(allvars[m.group(1)]) if m.group(1) in allvars else (m.group(0) if dflt is None else dflt), v)
+        if obs != "ok:" + hexs(want):
+            key = "replace:known-variable" if known else "replace:default-for-unknown"
+            rep.violate(key, f"entry.replace(default={dflt!r}) on {v!r} with {allvars} gave {describe_x(obs)}, expected {want!r}: "
+                             "a known variable is substituted by its own value, an unknown one by the default if given", step)
+        return
     # plain `{name}` references (no format spec) are replaced textually, also inside the replacement
     # texts (nested), until no known reference is left; unknown references stay as they are
     def plain(txt):
@@ -675,6 +763,12 @@ def run_history(ctx, drv, hist, tmp):
         tok, obs = run_op(w, op)
         toks.append(tok)
         obss.append(obs)
+        if op.get("corr_only"):
+            rep.diverged = True
+        if op["op"] == "r" and "_written" in op:
+            count_text(ctx, op["_written"], op["width"])
+        if op["op"] == "t" and ctx is not None:
+            ctx.count("wf-text=" + obs)
         if rep.diverged:
             pass  # the reference store no longer describes the real objects: correspondence only
         elif op["op"] in MUTATING:
@@ -904,8 +998,185 @@ def gen_history(rng, n):
     i = rng.choice([0, 0, 1])
     hist += battery(rng, i, full=rng.random() < 0.3)
     for wdt in rng.sample([200, 200, 80, 45], 2):
+        hist.append({"op": "t", "cfg": i, "width": wdt})
         hist.append({"op": "w", "cfg": i, "width": wdt})
         hist.append({"op": "r", "cfg": i, "width": wdt})
+    return hist
+
+
+
+# ------------------------------------------------------------------------------------------------
+# configurations aimed at the text form (theorem text_roundtrip): wrapping at, before and after the line width,
+# words longer than a line, hyphenated words across the wrap column, long keys, metadata, profile sections
+
+LONGKEY = "a_key_longer_than_the_key_column"
+RT_WORDS = ["north-east", "a-priori", "station-list", "/data/in-situ/x", "re-run", "alpha", "beta_2", "gnss", "x", "a#b", "c;d",
+            "e=f", "[g]", "h:i", "{year}", "{doy:03d}", "1,2", "2020-01-01", "-7", "a--b", "x-", "ny-alesund", "semi-major-axis"]
+LETTERS = "abcdefghijklmnopqrstuvwxyzABCXYZ0123456789_/."
+
+
+def letters(rng, n):
+    return "".join(rng.choice(LETTERS[:26] if rng.random() < 0.8 else LETTERS) for _ in range(n))
+
+
+def filler(rng, n):
+    """a word of exactly n characters, half of the longer ones with a hyphen between letters"""
+    if n >= 6 and rng.random() < 0.5:
+        i = rng.randint(2, n - 4)
+        return "".join(rng.choice(LETTERS[:26]) for _ in range(i)) + "-" + "".join(rng.choice(LETTERS[:26]) for _ in range(n - i - 1))
+    return letters(rng, n)
+
+
+def exact_line(rng, total):
+    """words that, joined by single blanks, are exactly `total` characters long"""
+    words, remaining = [], total
+    while remaining > 0:
+        n = remaining if remaining <= 3 or rng.random() < 0.2 else rng.randint(1, remaining)
+        if remaining - n == 1:
+            n = remaining
+        words.append(filler(rng, n))
+        remaining -= n + 1
+    return words
+
+
+def gen_rt_value(rng, avail):
+    """avail: the characters a line holds after the key column (width - 33)"""
+    k = rng.random()
+    if k < 0.07:
+        return ""
+    if k < 0.14:
+        return filler(rng, avail)  # one word exactly filling the line
+    if k < 0.21:
+        return filler(rng, avail + rng.randint(1, 40))  # one word longer than a line
+    if k < 0.27:
+        return rng.choice(RT_WORDS)
+    words = []
+    for _ in range(rng.randint(1, 7)):
+        mode = rng.random()
+        if mode < 0.30:  # a line filled exactly
+            words += exact_line(rng, avail)
+        elif mode < 0.45:  # one character more than fits: the last word moves to the next line
+            words += exact_line(rng, avail + 1)
+        elif mode < 0.70 and avail >= 8:  # a hyphenated word across the wrap column: the part up to the hyphen would still fit
+            room = rng.randint(3, min(9, avail - 2))  # characters left on the line for the word (incl. nothing after it)
+            if avail - room - 1 >= 1:
+                words += exact_line(rng, avail - room - 1)
+            head = rng.randint(2, room - 1)
+            words.append("".join(rng.choice(LETTERS[:26]) for _ in range(head)) + "-"
+                         + "".join(rng.choice(LETTERS[:26]) for _ in range(rng.randint(max(2, room - head), room + 6))))
+        elif mode < 0.80:  # a word longer than a line in the middle of the value
+            words.append(filler(rng, avail + rng.randint(1, 12)))
+        else:
+            words += [rng.choice(RT_WORDS + [filler(rng, rng.randint(1, avail + 2))]) for _ in range(rng.randint(1, 4))]
+    return " ".join(w for w in words if w)
+
+
+def gen_rt_meta(rng, avail):
+    if rng.random() < 0.55:
+        return None
+    m = {}
+    if rng.random() < 0.8:
+        m["help"] = gen_rt_value(rng, avail)
+    if rng.random() < 0.4:
+        m["type"] = rng.choice(["str", "List[str]", "float", ""])
+    if rng.random() < 0.35:
+        m[rng.choice(["flag", "wrapper", "a:b"])] = None
+    return m or None
+
+
+RT_SECTIONS = ["s1", "s2", "s1__p1", "s1__p2", "s2__p3", "s2__p1", "zz_9", "s1__", "s2__p1__x"]
+
+
+def gen_rt_history(rng):
+    width = rng.choice([45, 45, 45, 60, 80, 200])
+    avail = width - 33
+    hist = []
+    for sec in rng.sample(RT_SECTIONS, rng.randint(1, 5)):
+        for key in rng.sample(KEYS + [LONGKEY, "k.dot", "k-4", "k"], rng.randint(1, 3)):
+            hist.append({"op": "U", "cfg": 0, "sec": sec, "key": key, "val": gen_rt_value(rng, avail), "profile": None,
+                         "source": "code", "allow_new": True, "meta": gen_rt_meta(rng, avail)})
+    if rng.random() < 0.25:  # the same through the profile store: the view written is the flattened one
+        hist.append({"op": "U", "cfg": 0, "sec": "s1", "key": "k1", "val": gen_rt_value(rng, avail), "profile": "p1",
+                     "source": "code", "allow_new": True, "meta": gen_rt_meta(rng, avail)})
+        hist.append({"op": "P", "cfg": 0, "profiles": ["p1"]})
+    hist.append({"op": "v", "cfg": 0})
+    if rng.random() < 0.15:  # outside the well-formed class: compared with the model only
+        hist.append({"op": "U", "cfg": 0, "sec": rng.choice(["s1", "s 3", "s1__p1", "__x"]),
+                     "key": rng.choice(["k1", "K1", "k 1", "k=1", "k:1", "#k", "[k]"]),
+                     "val": rng.choice(["a  b", "x #y z", "#x", " lead", "a\tb", "ok", ";"]), "profile": None,
+                     "source": "code", "allow_new": True, "meta": rng.choice([None, {"Help": "x"}, {"help": ";x"}, {"a=b": None}])})
+    for wdt in [width] + rng.sample([36, 45, 60, 80, 200, avail + 33 + 1, max(34, width - 1)], 2):
+        hist.append({"op": "t", "cfg": 0, "width": wdt})
+        hist.append({"op": "w", "cfg": 0, "width": wdt})
+        hist.append({"op": "r", "cfg": 0, "width": wdt})
+    return hist
+
+
+def count_text(ctx, text, width):
+    """which features of the text form a written file has (coverage of the writer/reader model)"""
+    if ctx is None:
+        return
+    lines = text.split("\n")
+    feats = set()
+    run = 0
+    nprof = 0
+    for idx, l in enumerate(lines):
+        cont = l.startswith(" " * 33)
+        run = run + 1 if cont else 0
+        if run >= 2:
+            feats.add("value-on->=3-lines")
+        if run >= 5:
+            feats.add("value-on->=6-lines")
+        if len(l) == width:
+            feats.add("line-exactly-full")
+        if len(l) > width:
+            feats.add("line-longer-than-width(word-longer-than-line)")
+        if l.startswith("["):
+            if "__" in l:
+                nprof += 1
+            continue
+        if l and not cont:
+            key = l.partition("=")[0].rstrip()
+            if len(key) > 30:
+                feats.add("key-longer-than-key-column")
+            if ":" in key:
+                feats.add("meta-entry")
+            if "=" not in l:
+                feats.add("valueless-key")
+            elif l.rstrip().endswith("="):
+                nxt = lines[idx + 1] if idx + 1 < len(lines) else ""
+                feats.add("first-word-on-continuation-line" if nxt.startswith(" " * 33) else "empty-value")
+        if any(("#" in w_[1:] or ";" in w_[1:]) for w_ in l.split()):
+            feats.add("hash-or-semicolon-inside-a-word")
+        if any("-" in w_[1:-1] for w_ in l.split()):
+            feats.add("hyphenated-word")
+    if nprof:
+        feats.add("profile-section")
+    if nprof >= 2:
+        feats.add(">=2-profile-sections")
+    for f in feats:
+        ctx.count("text:" + f)
+
+
+# corner cases of the ConfigParser subset (section header regex, continuation after a valueless option, empty lines
+# inside values, indented options): model against code only (no reference semantics)
+ODD_FILES = [
+    "[a]b\nk1 = v\n", "[s1]]\nk1 = v\n", "[]\nk1 = v\n", "[s1]\n[]\nk1 = v\n", "[s1]\n[]]\nk1 = v\n",
+    "[s1]\nk1\n   cont\n", "[s1]\nk1\n\n   cont\n", "[s1]\nk1\nk2 = a\n   cont\n",
+    "[s1]\nk1 = a\n  b\n c\nk2 = d\n", "[s1]\n k1 = a\n k2 = b\n", "[s1]\nk1 = a\n\n\n  b\n\n", "[s1]\nk1 =\n   a\n   b\n",
+    "[s1]\nk1 = a\n   # not a value\n   b\n", "[s1]\nk1 = a\n   ;x\n", "[s1]\nk1 = a # b\n", "[s1]\nk1 = a\n[s1]\nk2 = b\n",
+    "[s1]\nk1 = a\nk1 = b\n", "[s1]\nk1 = a\nK1 = b\n", "k1 = a\n", "[s1]\n= a\n", "[s1] \nk1 = a\n", "  [s1]\n  k1 = a\n    b\n",
+    "[s1]\nk1:help = h\nk1 = a\nk1:flag\n", "[s1__p1]\nk1 = a\n[s1]\nk1 = b\n", "[__x]\nk1 = a\n[s1]\nk2 = b\n",
+    "[s1]\nk1 = a\n\n[s2]\n\nk2 = b\n\n", "[s1]\nk1 = [a]\n  [b]\n", "[s1]\nk1 = a\n [s2]\nk2 = b\n",
+]
+
+
+def gen_odd_history(rng):
+    hist = []
+    for text in rng.sample(ODD_FILES, 3):
+        hist.append({"op": "F", "cfg": 0, "allow_new": True, "case_sensitive": rng.random() < 0.3, "text": text, "entries": [],
+                     "corr_only": True})
+        hist.append({"op": "v", "cfg": 0})
     return hist
 
 
@@ -915,11 +1186,14 @@ def gen_pure(rng, n):
         if rng.random() < 0.6:
             hist.append({"op": "a", "kind": rng.choice(["list", "tuple", "dict", "bool", "int"]), "value": gen_value(rng)})
         else:
-            vs = {kk: VARS[kk] for kk in rng.sample(sorted(VARS), rng.randint(0, 4))}
+            vs = {kk: VARS[kk] for kk in rng.sample(sorted(VARS), rng.randint(0, 6))}
             if rng.random() < 0.05:
                 vs["loop"] = "{loop}"
-            call = {} if rng.random() < 0.7 else {rng.choice(["var_1", "extra"]): rng.choice(["CALL", "{var_2}"])}
-            v = gen_value(rng, long_ok=False)
+            call = {} if rng.random() < 0.6 else {rng.choice(["var_1", "extra", "empty", "zero", "year"]):
+                                                  rng.choice(["CALL", "{var_2}", "", 0, False, 0.0, "0"])}
+            v = gen_value(rng, long_ok=False) if rng.random() < 0.6 else rng.choice(
+                ["run{empty}.log", "{empty}", "obs_{zero}_{unknown}.dat", "{off}/{empty}/{var_1}", "{nest0}", "{empty}{unknown}{zero}",
+                 "{year}{empty}", "a{extra}b{empty}c"])
             if rng.random() < 0.05:
                 v = "{loop} " + v
             hist.append({"op": "x", "value": v, "vars": vs, "callvars": call, "default": rng.choice([None, None, None, "DFLT"])})
@@ -945,15 +1219,26 @@ def run(ctx: Ctx):
                     "_config_section / _file / profiles / master / fallback / update_vars on two configurations, "
                     "2 sections x 3 keys x 3 profiles, values from a grammar of words, numbers, booleans, lists, paths, "
                     "{var} references, long lists and odd blanks, allow_new on/off, metadata; ~12 observations after every "
-                    "step, as_str and write_to_file+read_from_file at two widths at the end; (c) accessor / replace "
-                    "cases on grammar values. Non-trivial: the history has a profile change or a fallback or an "
+                    "step, WfText, as_str and write_to_file+read_from_file at two widths at the end; (b2) configurations "
+                    "aimed at the text form: 1-5 sections out of plain and name__profile names, keys incl. one longer than "
+                    "the key column, values built against the line width (a line filled exactly, one character more, a "
+                    "hyphenated word across the wrap column, words longer than a line, empty, 1-7 lines), metadata with "
+                    "wrapped help texts / empty / valueless entries, 15 % with an ingredient outside the well-formed class; "
+                    "WfText, as_str, write+read at three widths out of 36/45/60/80/200/w+1/w-1 (text:* counts say what the "
+                    "written files contained); hand-written corner files of the ConfigParser subset (model against code "
+                    "only); (c) accessor / replace cases on grammar values, variables with empty / 0 / False values, with "
+                    "and without default. Non-trivial: the history has a profile change or a fallback or an "
                     "allow_new=False update; distinct by canonical JSON")
         ctx.trusted += ["configparser, textwrap.fill and str.format are modelled on the subsets the generators reach "
                         "(ASCII, no tabs, no '%', specs [[fill]align][width])",
                         "the reference store of the oracle (harness/c19.py: Ref) as the statement of the lookup order"]
-        ctx.assumptions += ["keys are lower case, section names contain no '__', values are ASCII",
-                            "text round trip is required for values made of words separated by single blanks (wf_value); "
-                            "other values are compared with the model only",
+        ctx.assumptions += ["values are ASCII; no '%' in values and no section called DEFAULT (ConfigParser interpolation and "
+                            "default section are not modelled)",
+                            "text round trip is required for the configurations of wf_text (= WfText of the theorem "
+                            "text_roundtrip, compared on every generated configuration): words separated by single blanks, no "
+                            "word starting with '#' or ';', lower-case keys without blank/'='/':' that fit the line with the "
+                            "key column, section names without blanks; a section written as name__profile must come back as "
+                            "section `name` of profile `profile`; other configurations are compared with the model only",
                             "cfg.get(key, section=X) with X not a section but a key of the master section is excluded from "
                             "the oracle (the model mirrors it); counted as excluded:section-is-master-key"]
         corpus = common.VERIF / "corpus" / "C19"
@@ -983,6 +1268,19 @@ def run(ctx: Ctx):
                      nontrivial=any(op["op"] in "PL" or op.get("allow_new") is False for op in muts))
             ctx.count("random")
             ctx.count(f"len={n}")
+            run_history(ctx, drv, hist, tmp)
+            ctx.traces += 1
+        # (b2) configurations aimed at the text form; corner cases of the reader
+        for _ in range(ctx.budget(400, 6000)):
+            hist = gen_rt_history(rng)
+            ctx.case({"digest": common.digest(hist), "rt": len(hist)})
+            ctx.count("text-form")
+            run_history(ctx, drv, hist, tmp)
+            ctx.traces += 1
+        for _ in range(ctx.budget(40, 400)):
+            hist = gen_odd_history(rng)
+            ctx.case({"digest": common.digest(hist), "odd": [op["text"] for op in hist if op["op"] == "F"]})
+            ctx.count("odd-files")
             run_history(ctx, drv, hist, tmp)
             ctx.traces += 1
         # (c) accessors and replace
